@@ -1,6 +1,6 @@
 (** C31 — property theorems only. *)
 From Coq Require Import List ZArith NArith Bool.
-From C33 Require Import Lib.Harness C31.Model C31.Spec C31.Proofs C31.ProofsB58 C31.ProofsMain C31.ProofsRefute.
+From C33 Require Import Lib.Harness C31.Model C31.Spec C31.Proofs C31.ProofsB58 C31.ProofsMain C31.ProofsRefute C31.ProofsHist.
 Import ListNotations.
 Open Scope N_scope.
 
@@ -165,3 +165,49 @@ Theorem C31_height0_hypothesis_needed :
   exec_rejects nock wset env0 (BSingle tx_to_X None) = false.
 Proof. exact height0_needed. Qed.
 Print Assumptions C31_height0_hypothesis_needed.
+
+(** Histories of one process (blacklist loads and submissions asked at the
+    enforcement points in any order): the answer to a question is the pure
+    function [answer] of the transaction facts, the fork configuration, the
+    height and the set left by the loads that precede it; the questions asked
+    before it (same body, other signer, other enforcement point, ...) are
+    irrelevant. *)
+Theorem C31_verdict_history_independent : forall cks pre st e b,
+  last (p_run cks st (pre ++ [OAsk e b])) None =
+  Some (answer cks (set_after cks st (loads_of pre)) e b).
+Proof. exact history_independent. Qed.
+Print Assumptions C31_verdict_history_independent.
+
+(** The same for every position of a history. *)
+Theorem C31_verdict_history_independent_nth : forall cks ops st n e b,
+  nth_error ops n = Some (OAsk e b) ->
+  nth_error (p_run cks st ops) n =
+  Some (Some (answer cks (set_after cks st (loads_of (firstn n ops))) e b)).
+Proof. exact history_independent_nth. Qed.
+Print Assumptions C31_verdict_history_independent_nth.
+
+(** Consequence: a plain submission touching the most recently loaded list is
+    rejected at every enforcement point whatever was loaded or asked before. *)
+Theorem C31_history_blocked_rejected : forall cks st pre L set asks e b,
+  parse_list cks L = Some set -> loads_of asks = [] ->
+  (e_h e <> 0)%Z -> plain e b = true -> touches cks L e b = true ->
+  exists a, last (p_run cks st (pre ++ OLoad L :: asks ++ [OAsk e b])) None = Some a /\
+    (active e = true ->
+       a_prod a = true /\ (forall base r, In r (a_exec a base) -> r = 0) /\ a_txs a = true) /\
+    a_txsimm a = true /\
+    (forall base, a_pool a base <> ROk) /\
+    (is_single b = true -> forall base, a_delay a base = RBlocked).
+Proof. exact history_blocked. Qed.
+Print Assumptions C31_history_blocked_rejected.
+
+(** Its hypotheses are satisfiable: the same body from a clean signer, then from the listed one. *)
+Theorem C31_history_witness :
+  parse_list nock wL = Some wset /\ loads_of [OAsk env10 (BSingle tx_clean None)] = [] /\
+  (e_h env10 <> 0)%Z /\ plain env10 (BSingle tx_from_X None) = true /\
+  touches nock wL env10 (BSingle tx_from_X None) = true /\
+  map (option_map a_imm) (p_run nock [] (w_hist ++ [OAsk env10 (BSingle tx_from_X None)])) =
+    [None; Some [false]; None; Some [false]; Some [true]] /\
+  map (option_map (fun a => a_pool a ROk)) (p_run nock [] (w_hist ++ [OAsk env10 (BSingle tx_from_X None)])) =
+    [None; Some ROk; None; Some ROk; Some RBlocked].
+Proof. exact history_witness. Qed.
+Print Assumptions C31_history_witness.
